@@ -40,6 +40,9 @@ CLAIMED = {
  "C07": ("The real BuildConstraints / Constraints / MaxDepth / ContentConstraint / FieldsMatcher+PathMatchExpression / ListRange / WithDefaults / MaxNode code (and net/url query parsing) is executed for a read (Find(?query) + export into a fresh store) of a reference store with symbolic leaf values; the exported tree must equal a reference projection: depth 1..5 (and a symbolic depth through the MaxDepth object), content=config|nonconfig|all, with-defaults=trim, 11 fields / fc.xfields expressions (nested, alternatives, groups, longer than the tree), fc.range windows over 0..3 (quick) / 0..4 (thorough) rows, fc.max-node-count 1..8, 4 parameter combinations (intersection), 11 invalid values (must be errors), and the source must receive no write.",
          NOTE_COMMON + "Outside the claim: parameter values are enumerated catalogues except leaf content and the symbolic depth; empty or inverted fc.range windows (not specified); filter/where are C16.",
          "DESIGN.md §2 C07"),
+ "C16": ("Selection.XPredicate / xpathImpl.resolvePath / resolveOperator / Where / xpathFilter / CheckWhen executed symbolically: for every numeric leaf type (int8..uint64, decimal64) the leaf value and the literal are full-width symbolic and all six operators are checked against the mathematical comparison (strings of <=2 bytes, booleans, enums by name likewise); an unset operand must give false without a crash; where keeps exactly the matching rows of a list with 2 (quick) / 3 (thorough) rows whose operand is present or absent symbolically, also through the text route (?where= parsed by the real xpath lexer and goyacc parser); a notification filter delivers exactly the matching events; when on a container, on a leaf and through a nested path hides the node on reads and suppresses the write on edits exactly when the expression is false.",
+         NOTE_COMMON + "Outside the claim: when on list / uses / augment (the library's context-node convention for them is not determinable from the code or its tests), literals outside the operand's type range (the library returns an error), XPath beyond 'path op literal'.",
+         "DESIGN.md §2 C16"),
 }
 NA_REASON = "engine under construction; no check registered yet"
 
